@@ -386,6 +386,13 @@ Definition norm (s : state) : state :=
         (http_f s) (https_f s) (drop_empty (tcp_f s)) (drop_empty (udp_f s))
         (filter (fun kv : N * gmap N cert => snd kv ≠ ∅) (certs s)).
 
+(** [norm], additionally forgetting the order inside tcp / udp frontend buckets (they are sets) *)
+Definition tf_le (a b : tfront) : bool := lex_le [t_addr a; t_tags a] [t_addr b; t_tags b].
+Definition norm_set (s : state) : state :=
+  let n := norm s in
+  State (clusters n) (backends n) (http_l n) (https_l n) (tcp_l n) (udp_l n) (http_f n) (https_f n)
+        (isort tf_le <$> tcp_f n) (isort tf_le <$> udp_f n) (certs n).
+
 (** * diff *)
 Inductive dres := DAdded | DRemoved | DChanged.
 
@@ -405,9 +412,6 @@ Section diffmap.
         end
       end.
 End diffmap.
-
-Definition N2_cmp (a b : N * N) : comparison :=
-  match fst a ?= fst b with Eq => snd a ?= snd b | c => c end.
 
 (** a map's entries in key order (BTreeMap iteration) *)
 Definition sorted_entries {V} (m : gmap N V) : list (N * V) :=
@@ -439,18 +443,26 @@ Definition diff_late_activate (k : lkind) (my other : gmap N listener) : list re
   flat_map (fun al : N * listener => if l_active (snd al) then [RActivate (proxy_of k) (fst al)] else [])
            (keys_not_in other my).
 
-Definition backend_entries (m : gmap N (list backend)) : list ((N * N) * backend) :=
-  flat_map (fun cl : N * list backend => map (fun b => ((fst cl, b_id b), b)) (snd cl)) (sorted_entries m).
-Definition find_backend (m : gmap N (list backend)) (c id : N) : option backend :=
-  match m !! c with Some l => List.find (fun b => b_id b =? id) l | None => None end.
+(** backends: BTreeMap keyed by (cluster, backend id, address), merge-joined *)
+Definition N3_cmp (a b : N * N * N) : comparison :=
+  match fst (fst a) ?= fst (fst b) with
+  | Eq => match snd (fst a) ?= snd (fst b) with Eq => snd a ?= snd b | c => c end
+  | c => c
+  end.
+Definition backend_map (m : gmap N (list backend)) : gmap (N * N * N) backend :=
+  list_to_map (reverse (flat_map (fun cl : N * list backend =>
+                                    map (fun b => ((fst cl, b_id b, b_addr b), b)) (snd cl)) (map_to_list m))).
+Definition backend_entries (m : gmap N (list backend)) : list ((N * N * N) * backend) :=
+  isort (fun x y : (N * N * N) * backend => match N3_cmp (fst x) (fst y) with Gt => false | _ => true end)
+        (map_to_list (backend_map m)).
 
 Definition diff_backends (my other : gmap N (list backend)) : list request :=
-  flat_map (fun kr : (N * N) * dres =>
-              let '((c, id), r) := kr in
-              let rm := match find_backend my c id with Some b => [RRemoveBackend c (b_id b) (b_addr b)] | None => [] end in
-              let ad := match find_backend other c id with Some b => [RAddBackend c b] | None => [] end in
+  flat_map (fun kr : (N * N * N) * dres =>
+              let '((c, id, a), r) := kr in
+              let rm := match backend_map my !! (c, id, a) with Some b => [RRemoveBackend c (b_id b) (b_addr b)] | None => [] end in
+              let ad := match backend_map other !! (c, id, a) with Some b => [RAddBackend c b] | None => [] end in
               match r with DAdded => ad | DRemoved => rm | DChanged => rm ++ ad end)
-           (diff_map N2_cmp (fun a b : backend => bool_decide (a = b)) (backend_entries my) (backend_entries other)).
+           (diff_map N3_cmp (fun a b : backend => bool_decide (a = b)) (backend_entries my) (backend_entries other)).
 
 Definition diff_clusters (my other : gmap N cluster) : list request :=
   flat_map (fun kr : N * dres =>
@@ -485,13 +497,14 @@ Definition diff_tfronts (udp : bool) (my other : gmap N (list tfront)) : list re
 
 Definition cert_keys (m : gmap N (gmap N cert)) : list (N * (N * cert)) :=
   flat_map (fun ab : N * gmap N cert => map (fun fk => (fst ab, fk)) (map_to_list (snd ab))) (map_to_list m).
-Definition has_cert (m : gmap N (gmap N cert)) (a fp : N) : bool :=
-  match m !! a with Some b => match b !! fp with Some _ => true | None => false end | None => false end.
+(** certificates: HashSet of (address, fingerprint, value) triples; removed then added *)
+Definition has_cert (m : gmap N (gmap N cert)) (a fp : N) (k : cert) : bool :=
+  match m !! a with Some b => bool_decide (b !! fp = Some k) | None => false end.
 Definition diff_certs (my other : gmap N (gmap N cert)) : list request :=
   map (fun x : N * (N * cert) => RRemoveCert (fst x) (Some (fst (snd x))))
-      (List.filter (fun x => negb (has_cert other (fst x) (fst (snd x)))) (cert_keys my))
+      (List.filter (fun x => negb (has_cert other (fst x) (fst (snd x)) (snd (snd x)))) (cert_keys my))
   ++ map (fun x : N * (N * cert) => RAddCert (fst x) (snd (snd x)))
-         (List.filter (fun x => negb (has_cert my (fst x) (fst (snd x)))) (cert_keys other)).
+         (List.filter (fun x => negb (has_cert my (fst x) (fst (snd x)) (snd (snd x)))) (cert_keys other)).
 
 Definition diff (a b : state) : list request :=
   diff_listeners_removed LTcp (tcp_l a) (tcp_l b) ++ diff_listeners_added LTcp (tcp_l a) (tcp_l b)
